@@ -48,6 +48,10 @@ constexpr char const* tname()
     if constexpr (std::is_same_v<T, char>) { return "char"; }
     if constexpr (std::is_same_v<T, long long>) { return "long long"; }
     if constexpr (std::is_same_v<T, unsigned long long>) { return "unsigned long long"; }
+    if constexpr (std::is_same_v<T, char8_t>) { return "char8_t"; }
+    if constexpr (std::is_same_v<T, char16_t>) { return "char16_t"; }
+    if constexpr (std::is_same_v<T, char32_t>) { return "char32_t"; }
+    if constexpr (std::is_same_v<T, wchar_t>) { return "wchar_t"; }
     return "?";
 }
 
@@ -218,6 +222,69 @@ Set const& full_minus_small()
     return v;
 }
 
+/// Round 2: the "runs of ones" extension of the lattice for 32/64-bit types: every 2^k - 2^j
+/// (0 <= j < k <= W: bits j..k-1 set), its complement and its negation, minus what the lattice
+/// already holds.  Empty for types of at most 16 bits (their full value set is swept anyway).
+template <typename T>
+Set const& extra()
+{
+    static Set const v = [] {
+        Set o;
+        if constexpr (sizeof(T) > 2) {
+            using U         = std::make_unsigned_t<T>;
+            constexpr int W = width_v<T>;
+            std::set<U> s;
+            for (int k = 1; k <= W; ++k) {
+                for (int j = 0; j < k; ++j) {
+                    U const r = U((u128(1) << k) - (u128(1) << j));
+                    s.insert(r);
+                    s.insert(U(~r));
+                    s.insert(U(U(0) - r));
+                }
+            }
+            std::set<V> have(lattice<T>().begin(), lattice<T>().end());
+            for (U u : s) {
+                V const x = i128(T(u));
+                if (have.count(x) == 0) { o.push_back(x); }
+            }
+            sort_simplest_first(o);
+        }
+        return o;
+    }();
+    return v;
+}
+
+/// a dozen edge values of the type (a subset of the lattice): 0, 1, 2, 3, the limits and their
+/// neighbours, -1, -2, the top bit
+template <typename T>
+Set const& edge()
+{
+    static Set const v = [] {
+        std::set<V> s{0, 1, 2, 3, max_v<T>, max_v<T> - 1, max_v<T> - 2, min_v<T>, min_v<T> + 1, min_v<T> + 2, max_v<T> / 2, max_v<T> / 2 + 1};
+        if (std::is_signed_v<T>) {
+            s.insert(-1);
+            s.insert(-2);
+            s.insert(-3);
+        }
+        Set o(s.begin(), s.end());
+        sort_simplest_first(o);
+        return o;
+    }();
+    return v;
+}
+
+/// lattice u extra: the whole round-2 value set of a 32/64-bit type (full(T) for narrower types)
+template <typename T>
+Set const& full2()
+{
+    static Set const v = [] {
+        Set o = full<T>();
+        o.insert(o.end(), extra<T>().begin(), extra<T>().end());
+        return o;
+    }();
+    return v;
+}
+
 struct Product {
     Set const* a;
     Set const* b;
@@ -240,6 +307,49 @@ Space pair_space(bool wide16)
         s.push_back({&full<T>(), &full<U>()});
     }
     return s;
+}
+
+/// How far the runs-of-ones extension enters a pair space.
+enum class Runs {
+    none,   // round-1 space only
+    edges,  // + extra(T) x edge(U) and edge(T) x extra(U)                  (quick)
+    cross,  // + extra(T) x lattice(U) and lattice(T) x extra(U)            (thorough, costly functions)
+    square, // + the complete (lattice u extra)(T) x (lattice u extra)(U)   (thorough)
+};
+
+/// pair_space plus the runs-of-ones parts (all parts stay pairwise disjoint: extra(T) and
+/// lattice(T) are disjoint by construction, edge(T) is a subset of lattice(T))
+template <typename T, typename U>
+Space pair_space2(bool wide16, Runs runs)
+{
+    Space s = pair_space<T, U>(wide16);
+    if (runs == Runs::none) { return s; }
+    // every new part has at least one component from extra(): disjoint from the round-1 parts
+    Set const& eT = extra<T>();
+    Set const& eU = extra<U>();
+    if (runs == Runs::edges) {
+        if (!eT.empty()) { s.push_back({&eT, &edge<U>()}); }
+        if (!eU.empty()) { s.push_back({&edge<T>(), &eU}); }
+    } else {
+        // a 16-bit type takes part with its grid, an 8-bit type with every value
+        if (!eT.empty()) { s.push_back({&eT, &small<U>()}); }
+        if (!eU.empty()) { s.push_back({&small<T>(), &eU}); }
+        if (runs == Runs::square && !eT.empty() && !eU.empty()) { s.push_back({&eT, &eU}); }
+    }
+    return s;
+}
+
+/// the default extension of a tier/flavour: edges in the quick tier and in the instrumented build
+inline Runs runs_default(mc::Reporter& r, Runs thorough_level, Runs quick_level = Runs::edges)
+{
+#if defined(MC_FLAVOUR_SAN)
+    (void)r;
+    (void)thorough_level;
+    (void)quick_level;
+    return Runs::edges;
+#else
+    return r.thorough() ? thorough_level : quick_level;
+#endif
 }
 
 /// thorough: the complete 2^16 x 2^16 square, slice `chunk` of `nchunks` along the first axis
